@@ -116,3 +116,64 @@ vproof! {
         kani::cover!(true, "reached");
     }
 }
+
+// ------------------------------------------------------------------------------------------
+// sampling: BINV (C03 support, C05 loop bound), constant and Poisson-limit methods
+// ------------------------------------------------------------------------------------------
+
+/// BINV walk from the state new() builds for a concrete (n, p, r0 = q^n) and every first word.  With a concrete
+/// state the pmf terms r_k are constants and only the uniform draw is symbolic (111 subtract/compare steps);
+/// with symbolic (n, p) the unrolled walk has 4 M SAT variables and does not finish.
+fn binv_walk(n: u64, p: f64, r0: f64, flipped: bool) {
+    let q = 1.0 - p;
+    let sft = p / q;
+    let st = Binv { r: r0, s: sft, a: (n as f64 + 1.0) * sft, n };
+    let mut rng = SymRng::new(1);
+    let x = binv(st, flipped, &mut rng);
+    vassert!(x <= n, "Binomial(BINV) sample exceeds n");
+    vassert!(rng.pos == 1, "Binomial(BINV): a completed walk consumes exactly one word");
+    vassert!(if flipped { n - x <= 110 } else { x <= 110 }, "Binomial(BINV): walk went beyond the restart bound");
+}
+
+//@ id: c05_binomial_binv
+//@ prop: C05
+//@ tier: quick
+//@ cap: 1200
+//@ funcs: binomial::binv (inner inversion walk and its BINV_MAX_X restart)
+//@ bounds: (n, p) in {(20, 0.3), (1000, 0.004), (50_000_000_000_000_000, 1.8e-16) flipped}; r0 = q^n as computed natively (third case: a deliberately deficient r0 so that the pmf terms sum to less than 1 and the walk sticks); every first word; one outer iteration; the inner walk is unwound 113 times with the unwinding assertion ON (the solver proves it never exceeds 112 steps)
+//@ assumes: state built as Binomial::new does (s = p/q, a = (n+1) s)
+#[kani::proof]
+#[kani::unwind(113)]
+fn c05_binomial_binv() {
+    let sel: u8 = kani::any();
+    match sel % 3 {
+        0 => binv_walk(20, 0.3, 0.0007979226629761189, false),
+        1 => binv_walk(1000, 0.004, 0.018169309535589467, false),
+        _ => binv_walk(50_000_000_000_000_000, 1.8e-16, 1.5e-5, true),
+    }
+    kani::cover!(sel % 3 == 2, "huge n");
+}
+
+//@ id: c03_binomial_poisson_limit
+//@ prop: C03
+//@ tier: quick
+//@ cap: 900
+//@ funcs: Binomial::new (Poisson-limit branch); poisson::KnuthMethod::<f64>::sample as used by Binomial::sample
+//@ bounds: every (n, p) with 1 - p == 1 (p < 2^-53) and n p < 10; up to 4 words
+//@ assumes: libm::exp by contract; the Method::Poisson arm of Binomial::sample is `poisson.sample(rng) as u64` (called directly to keep BTPE out of the formula)
+vproof! {
+    #[kani::unwind(6)]
+    fn c03_binomial_poisson_limit() {
+        let n: u64 = kani::any();
+        let p: f64 = kani::any();
+        kani::assume(p > 0.0 && p < 1.2e-16);
+        let d = match Binomial::new(n, p) { Ok(d) => d, Err(_) => return };
+        let mut rng = SymRng::new(4);
+        if let Method::Poisson(k) = d.method {
+            let x = k.sample(&mut rng) as u64;
+            // the Knuth product needs k+1 draws for result k
+            vassert!(x as usize + 1 == rng.pos, "Binomial(Poisson limit): result is not (number of draws - 1)");
+            kani::cover!(rng.pos == 3, "poisson limit, 3 draws");
+        }
+    }
+}
